@@ -98,6 +98,9 @@ Kind(n, lo, hi) ==
 KindOf(r) == Kind(NKids(r), r.lo, r.hi)
 Kinds == {"mandatory", "optional", "alternative", "or", "mutex", "cardinality"}
 IsGroupRel(r) == NKids(r) > 1
+HolderKind(m, f) == IF HoldersOf(m, f) = {} THEN "none" ELSE KindOf(HolderOf(m, f))
+HasRelKind(m, f, k) == \E i \in DOMAIN RelsOf(m, f) : KindOf(RelsOf(m, f)[i]) = k
+NGroupRels(m, f) == Cardinality({i \in DOMAIN RelsOf(m, f) : IsGroupRel(RelsOf(m, f)[i])})
 
 ---------------------------------------------------------------------------
 (* Well-formedness (C02): the graph is a proper tree with consistent back  *)
